@@ -37,7 +37,7 @@ def configs(rtf, pl, seed=0, limit=None):
                   ("subline1", {"subline_by": ["g"]}), ("subline1_pb1", {"subline_by": ["g"], "page_by": ["h"], "new_page": False}),
                   ("group_by1", {"group_by": ["g"]})]
     nrows = [40, 12, 7, 5, 4, 2, 1]
-    looks = ["default", "matrix", "percol", "widths", "notes_table", "notes_par", "noheader", "hdr_explicit", "no_repeat_header", "border_widths", "place_first", "place_all", "borders"]
+    looks = ["default", "matrix", "percol", "widths", "notes_table", "notes_par", "noheader", "hdr_explicit", "no_repeat_header", "border_widths", "place_first", "place_all", "borders", "pattern"]
     combos = list(itertools.product(range(len(frames)), strategies, nrows, looks))
     rnd.shuffle(combos)
     combos.sort(key=lambda c: (c[3] != "default", 0))       # plain looks first (stable sort keeps the shuffle inside each class)
@@ -70,6 +70,11 @@ def configs(rtf, pl, seed=0, limit=None):
                 bkw["border_width"] = 30
             elif look == "widths":
                 bkw["col_rel_width"] = [1 + (j % 3) for j in range(nc)]
+            if look == "pattern":
+                # short recycled patterns whose length does not divide the table shape (rows and columns)
+                bkw["border_bottom"] = [["single"], [""]]
+                bkw["border_top"] = [["single", ""]]
+                bkw["text_justification"] = ["l", "c"]
             if look in ("notes_table", "notes_par"):
                 kw["rtf_footnote"] = rtf.RTFFootnote(text="fn text", as_table=(look == "notes_table"))
                 kw["rtf_source"] = rtf.RTFSource(text="src text", as_table=(look == "notes_table"))
@@ -302,10 +307,22 @@ def check_rows_per_page(doc, rtf_text, parsed):
     """C03 (lower bound): no page has more table rows + heading paragraphs than nrow (each counted as one line)."""
     nrow = doc.rtf_page.nrow
     bad = []
+    # known finding (known_findings.json, C03): the auto-populated default column header row is rendered but not reserved; that one row is
+    # not what this family looks for
+    hdrs = doc.rtf_column_header or []
+    flat = [h for h in hdrs if h is not None and not isinstance(h, list)]
+    auto = bool(getattr(doc.rtf_body, "as_colheader", False)) and any(getattr(h, "text", None) is None for h in flat)
+    slack = 1 if auto else 0
+    per_page = {}
+    if not isinstance(doc.rtf_body, list):
+        for pi, _t in data_rows_in_order(doc, parsed):
+            per_page[pi] = per_page.get(pi, 0) + 1
     for pi, p in enumerate(parsed.pages):
         n = len(p.rows)
-        if n > nrow and n > 1:
-            bad.append(f"page {pi + 1} has {n} table rows, nrow = {nrow}")
+        if per_page.get(pi, 0) <= 1:
+            continue                      # a page always takes one data row, whatever the budget (the property speaks of pages that could have broken earlier)
+        if n > nrow + slack and n > 1:
+            bad.append(f"page {pi + 1} has {n} table rows, nrow = {nrow}" + (" (+1 unreserved default header row, known finding)" if slack else ""))
     return bad
 
 
@@ -363,6 +380,21 @@ def replayer(family, limit=2000):
             saved = saved["input"] if saved.get("found") else None
         return search(index, family, seed=seed or 0, limit=limit, saved=saved)
     fn.__name__ = f"replay_docs_{family}"
+    return fn
+
+
+def replayer_any(families, limit=2000):
+    """Try several clause families in turn (first hit wins)."""
+    def fn(index, ob, seed, saved=None):
+        if isinstance(saved, dict) and saved.get("family") in families:
+            return replayer(saved["family"], limit)(index, ob, seed, saved)
+        last = None
+        for fam in families:
+            last = replayer(fam, limit)(index, ob, seed, None)
+            if last.get("found"):
+                return last
+        return last
+    fn.__name__ = "replay_docs_" + "_".join(families)
     return fn
 
 
@@ -498,6 +530,48 @@ def search(index, family, seed=0, limit=400, saved=None):
     if family == "borders" and "borders" not in FAMILIES:
         FAMILIES["borders"] = make_check_borders(index.real_module("rtflite.row"))
     return _search_plain(index, family, seed=seed, limit=limit, saved=saved)
+
+
+def check_heading_count(doc, rtf_text, parsed):
+    """C03 / C05 (page_by shown as rows): the heading rows read back before data row k are exactly the ones the row budget counts - at a page
+    top the non-divider values of every level, at a group start inside a page the non-divider values of the first changed level and of the
+    levels below it - no more (an extra heading is a row nobody reserved), no fewer."""
+    body = doc.rtf_body
+    if not body.page_by or (body.new_page and getattr(body, "pageby_row", "column") == "column") or body.subline_by:
+        return []
+    shown = displayed_columns(doc)
+    if len(shown) < 2:
+        return []
+    keys = [tuple(cell_display(v) for v in row) for row in doc.df.select(body.page_by).iter_rows()]
+    rows = data_rows_in_order(doc, parsed)
+    if len(rows) != doc.df.height:
+        return []
+    bad = []
+    k = 0
+    for pi, p in enumerate(parsed.pages):
+        pending = []
+        first_on_page = True
+        for r in p.rows:
+            t = tuple(c.text for c in r.cells)
+            if k < len(rows) and (pi, t) == rows[k]:
+                if first_on_page:
+                    want = [v for v in keys[k] if v != DIV and v != ""]
+                elif k > 0 and keys[k] != keys[k - 1]:
+                    first_changed = min(l for l in range(len(keys[k])) if keys[k][l] != keys[k - 1][l])
+                    want = [v for v in keys[k][first_changed:] if v != DIV and v != ""]
+                else:
+                    want = []
+                if pending != want:
+                    bad.append(f"page {pi + 1}: data row {k} {t} is preceded by heading rows {pending}, the row budget counts {want}")
+                pending = []
+                first_on_page = False
+                k += 1
+            elif len(r.cells) == 1 and r.cells[0].text not in ("fn text", "src text"):
+                pending.append(r.cells[0].text)
+    return bad[:6]
+
+
+FAMILIES["heading_count"] = check_heading_count
 
 
 # ---- multi-section documents (df = [..], rtf_body = [..]) ---------------------------------------------------------------------------
